@@ -36,7 +36,8 @@ const c02Wide = `{"openapi":"3.0.3","info":{"title":"w","version":"1"},
  "requestBodies":{"PetBody":{"content":{"application/json":{"schema":{"$ref":"#/components/schemas/Pet"}}}}},
  "responses":{"NotFound":{"description":"nf","content":{"application/json":{"schema":{"$ref":"#/components/schemas/Err"}}}},"Created":{"description":"c","headers":{"Location":{"schema":{"type":"string"}},"X-Id":{"schema":{"type":"integer"}}},"content":{"application/json":{"schema":{"$ref":"#/components/schemas/Pet"}}}}},
  "schemas":{
-  "Pet":{"type":"object","required":["name","kind"],"x-go-type-skip-optional-pointer":false,"properties":{"name":{"type":"string"},"kind":{"type":"string","enum":["cat","dog","bird"]},"age":{"type":"integer","x-order":2},"tags":{"type":"array","items":{"type":"string"},"x-order":1},"when":{"type":"string","format":"date-time"},"id":{"type":"string","format":"uuid"},"ext":{"$ref":"other.yaml#/components/schemas/Ext"},"t3":{"$ref":"third.yaml#/components/schemas/T"},
+  "CaseVariants":{"type":"object","properties":{"id":{"type":"string"},"ID":{"type":"string"},"userName":{"type":"string"},"username":{"type":"string"},"Zip":{"type":"integer"},"zip":{"type":"integer"}}},
+  "Pet":{"type":"object","required":["name","kind"],"x-go-type-skip-optional-pointer":false,"properties":{"cv":{"$ref":"#/components/schemas/CaseVariants"},"name":{"type":"string"},"kind":{"type":"string","enum":["cat","dog","bird"]},"age":{"type":"integer","x-order":2},"tags":{"type":"array","items":{"type":"string"},"x-order":1},"when":{"type":"string","format":"date-time"},"id":{"type":"string","format":"uuid"},"ext":{"$ref":"other.yaml#/components/schemas/Ext"},"t3":{"$ref":"third.yaml#/components/schemas/T"},
      "custom":{"type":"string","x-go-type":"decimal.Decimal","x-go-type-import":{"path":"github.com/shopspring/decimal"}},"custom2":{"type":"string","x-go-type":"ulid.ULID","x-go-type-import":{"path":"github.com/oklog/ulid","name":"ulid"}},"custom4":{"type":"string","x-go-type":"acmemoney.Money","x-go-type-import":{"path":"example.com/money","name":"acmemoney"}},"custom5":{"type":"string","x-go-type":"refundmoney.Money","x-go-type-import":{"path":"example.com/money","name":"refundmoney"}},"custom3":{"type":"string","x-go-type":"money.Money","x-go-type-import":{"path":"example.com/money"},"x-oapi-codegen-extra-tags":{"db":"c3","validate":"required","xml":"c"}}}},
   "Dog":{"type":"object","required":["petType"],"properties":{"petType":{"type":"string"},"name":{"type":"string"},"bark":{"type":"boolean"},"x":{"type":"object","properties":{"a":{"type":"string"}}}}},
   "Cat":{"type":"object","required":["petType"],"properties":{"petType":{"type":"string"},"lives":{"type":"integer"}}},
@@ -222,7 +223,7 @@ func runC02(r *Report, rng *rand.Rand, thorough bool) {
 			}
 		}
 	}
-	r.Rule = fmt.Sprintf("each (document, configuration, skip-fmt) generated %d+ times in one process (every second time after a generation of the same document under another configuration: name normaliser, suffix and client type name, import mapping), in fresh processes (fresh hash seeds) and from %d random permutations of every JSON object's members; all outputs (or error strings) must be byte-identical; documents: one wide document with >= 3 entries in every map the generator walks (paths, operations, properties, content types, responses, headers, import mappings, discriminator mappings, x-go-type imports, encodings, security requirements, extensions), its variants with known order dependences, and random documents; non-trivial = generation succeeds", kIn+1, kPerm)
+	r.Rule = fmt.Sprintf("each (document, configuration, skip-fmt) generated %d+ times in one process (every second time after a generation of the same document under another configuration: name normaliser, suffix and client type name, import mapping), in fresh processes (fresh hash seeds) and from %d random permutations of every JSON object's members; all outputs (or error strings) must be byte-identical; documents: one wide document with >= 3 entries in every map the generator walks (paths, operations, properties, content types, responses, headers, import mappings, discriminator mappings, x-go-type imports, encodings, security requirements, extensions; sibling property names that differ only in letter case), its variants with known order dependences, and random documents; non-trivial = generation succeeds", kIn+1, kPerm)
 }
 
 func onlyImportOrderDiffers(outs map[string]int) bool {
